@@ -26,16 +26,18 @@ CONFIGS = {
         "dhcp": [(2, "wide"), (4, "deep")], "nbns": [(4, "wide")], "icmp4": [(2, "wide")],
         "ssdp": [(3, "wide"), (5, "deep")], "arp": [(1, "wide")], "llc": [(1, "wide")],
         "name": [(3, "wide"), (4, "deep")], "dnsmsg": [(2, "wide"), (4, "deep")],
+        "mcache": [(4, "wide")], "ping": [(4, "wide")],
     },
     "thorough": {
         "ndp": [(3, "wide"), (5, "deep")], "lldp": [(3, "wide"), (5, "deep")], "hbh": [(4, "wide"), (5, "deep")],
         "dhcp": [(3, "wide"), (4, "deep")], "nbns": [(4, "wide")], "icmp4": [(2, "wide")],
         "ssdp": [(4, "wide"), (5, "deep")], "arp": [(1, "wide")], "llc": [(1, "wide")],
         "name": [(4, "wide"), (5, "deep")], "dnsmsg": [(3, "wide"), (5, "deep")],
+        "mcache": [(5, "wide")], "ping": [(5, "wide")],
     },
 }
 C17_WALKERS = ["name", "dnsmsg", "nbns"]
-ALL_WALKERS = ["ndp", "lldp", "hbh", "dhcp", "nbns", "icmp4", "ssdp", "arp", "llc", "name", "dnsmsg"]
+ALL_WALKERS = ["ndp", "lldp", "hbh", "dhcp", "nbns", "icmp4", "ssdp", "arp", "llc", "name", "dnsmsg", "mcache", "ping"]
 
 
 def open_kfs():
@@ -57,8 +59,20 @@ def hook_present():
         return False
 
 
+def age_hook_present():
+    p = os.path.join(vlib.REPO, "handlers", "dns_naming", "verif_on.go")
+    try:
+        return "VerifAgeMDNSCache(" in open(p).read()
+    except OSError:
+        return False
+
+
 def build(ctx):
-    tags = "verif,dnshook" if hook_present() else "verif"
+    tags = "verif"
+    if hook_present():
+        tags += ",dnshook"
+        if age_hook_present():
+            tags += ",dnsage"          # the stateful mDNS cache family needs VerifAgeMDNSCache
     return vlib.go_build(ctx, "walkdrv", tags=tags)
 
 
